@@ -2023,8 +2023,8 @@ TRUSTED = ['models coq/theories/Ssm.v (SSM/ClientSSM/ServerSSM/StateMachineAcces
            'apdu.APCI.encode/decode (C07) is used by the harness to put frames on the wire and read their headers back']
 ASSUMPTIONS = ['timeouts are multiples of 125 ms (exact binary fractions of a second), every header field fits one octet',
                'one TaskManager per process, reset between scenarios; link layer replaced by the scripted medium (no NPDU header)',
-               'DeviceInfoCache: get / I-Am update with record aliasing (open transactions see the updated record) are modelled; the reference '
-               'counts are not (the unchanged code never reads them), nor the in-place upgrade of device_info.segmentationSupported in '
+               'DeviceInfoCache: get / I-Am update with record aliasing (open transactions see the updated record) are modelled in the world model; the reference '
+               'counts are modelled in DevCache.v (own correspondence) and checked by the direct predicate on every scenario, not carried by the world model; nor is the in-place upgrade of device_info.segmentationSupported in '
                'ServerSSM.idle (scenarios in which a node is client and server towards the same peer carry no records)',
                'resp_delay -1 / -2 script a server application that parks its answer / gives all parked answers from inside this indication']
 
